@@ -79,6 +79,10 @@ inductive Outcome
   | panic (site : String) (fragile : List String)
   | mismatch (what : String)
 
+def Outcome.isOk : Outcome → Bool
+  | .ok _ => true
+  | _ => false
+
 def maxAbsList (l : List Rat) : Rat := l.foldl (fun m x => if m < rabs x then rabs x else m) 0
 
 def hopToOpQ (o : HOp) : OpQ := ⟨o.rot, twelfths o.trans⟩
@@ -203,5 +207,16 @@ def run (inp : Input) : Outcome :=
   | .ok r => .ok r
   | .error (.ok _) => .panic "unreachable" []   -- `runE` never throws `ok`
   | .error o => o
+
+/-- A small worked input (used by the non-vacuity examples of the stage theorems): P222 (Hall 108),
+one general orbit of four atoms slightly off their ideal positions, identity identification. -/
+def exampleInput : Input :=
+  { lat := ⟨2, 0, 0, 0, 3, 0, 0, 0, 5⟩,
+    pos := [⟨1 / 10, 1 / 5, 3 / 10⟩, ⟨-1 / 10, -1 / 5, 301 / 1000⟩, ⟨1 / 10, -201 / 1000, -3 / 10⟩, ⟨-1 / 10, 1 / 5, -3 / 10⟩],
+    num := [1, 1, 1, 1],
+    ops := [⟨M3.one, Q3.zero⟩, ⟨⟨-1, 0, 0, 0, -1, 0, 0, 0, 1⟩, Q3.zero⟩, ⟨⟨1, 0, 0, 0, -1, 0, 0, 0, -1⟩, Q3.zero⟩,
+            ⟨⟨-1, 0, 0, 0, 1, 0, 0, 0, -1⟩, Q3.zero⟩],
+    perms := [[0, 1, 2, 3], [1, 0, 3, 2], [2, 3, 0, 1], [3, 2, 1, 0]],
+    hall := 108, P := M3.one, p := Q3.zero, symprec := 1 / 100, epsilon := 1 / 100 }
 
 end Moyo.StageStd
